@@ -34,6 +34,7 @@ def run(ctx) -> None:
                                         "indices run over range(count); variables['replica'] is the index")
     ctx.rule("C03.R3-apply-replicate", "a reference is treated as replicated only if its producer has a positive propagated count "
                                        "and is not aggregating; every component is emitted by one of the three branches")
+    ctx.rule("C03.R5-relative-only-same-stage", "the relative spelling of a replicated producer is rewritten only for consumers in the producer's stage")
     ctx.rule("C03.R4-propagation", "counts propagate in topological order and an aggregating predecessor contributes None")
 
     m = ctx.repo.module(FLOWIR)
@@ -56,6 +57,50 @@ def run(ctx) -> None:
             owner = source.enclosing_def(s.call) or fn
             check_site(ctx, "C03.R1-anchored-rewrite", owner, s, label)
     ctx.floor("C03.R1-anchored-rewrite", n_sites, 2, "reference rewriting sites in replica/aggregate compilation")
+
+    # ---------------- R5 -------------------------------------------------------------------------------
+    # the relative spelling '<producer>:<method>' denotes a producer in the consumer's OWN stage; it may be registered
+    # for rewriting only when the replicated producer is in that stage
+    n_rel = 0
+    for fn in (rep, agg):
+        c_ = CFG(fn)
+        rel_vars = set()
+        for n in source.walk_own(fn, include_nested=True):
+            if isinstance(n, ast.Assign) and isinstance(n.value, ast.Call) and last_attr(n.value) == "compile_reference":
+                kws = {k.arg for k in n.value.keywords}
+                has_stage = "stage_index" in kws or len(n.value.args) >= 4
+                if not has_stage:
+                    for t in n.targets:
+                        if isinstance(t, ast.Name):
+                            rel_vars.add(t.id)
+        stage_eq = match.test_nodes(c_, lambda t: "T" if (match.compare_parts(t) and isinstance(match.compare_parts(t)[1], ast.Eq)
+                                                          and {source.src(match.compare_parts(t)[0]), source.src(match.compare_parts(t)[2])} in
+                                                          ({"stage_index", "owner_stage"}, {"stage_index", "comp_stage"})) else None)
+        for node in c_.nodes:
+            if node.ast is None or node.kind not in ("stmt", "for"):
+                continue
+            uses_rel = None
+            a = node.ast
+            if node.kind == "stmt" and isinstance(a, ast.Assign) and isinstance(a.targets[0], ast.Subscript) and isinstance(a.targets[0].slice, ast.Name) \
+                    and a.targets[0].slice.id in rel_vars:
+                uses_rel = a
+            if node.kind == "stmt":
+                for c in own_calls(a):
+                    if last_attr(c) in ("append", "add") and c.args and isinstance(c.args[0], ast.Name) and c.args[0].id in rel_vars:
+                        uses_rel = a
+            if node.kind == "for" and isinstance(a.iter, (ast.List, ast.Tuple)) and any(isinstance(e, ast.Name) and e.id in rel_vars for e in a.iter.elts):
+                uses_rel = a
+            if uses_rel is None:
+                continue
+            n_rel += 1
+            ok = bool(stage_eq) and match.only_via_edges(c_, node, stage_eq)
+            ctx.ob("C03.R5-relative-only-same-stage", uses_rel, ok,
+                   "the relative spelling is registered only when the replicated producer is in the consumer's own stage" if ok else
+                   "the relative spelling '<producer>:<method>' of a replicated producer from ANOTHER stage is registered for rewriting: "
+                   "a consumer in stage 1 that references stage0.A (replicated) and its own-stage A gets 'A:ref' rewritten to "
+                   "stage0.A<i>:ref, i.e. it no longer consumes from the single instance of stage1.A",
+                   construct="%s in %s" % (short(uses_rel, 80), source.qualname(fn)))
+    ctx.floor("C03.R5-relative-only-same-stage", n_rel, 2, "registrations of the relative spelling")
 
     # ---------------- R2 -------------------------------------------------------------------------------
     params = [a.arg for a in rep.args.args]
